@@ -101,7 +101,9 @@ def script(draw):
     src += "\n".join(fixed) + "\n"
     if loop or draw(st.booleans()):
         src += "while True:\n" + "\n".join("    " + x for x in (loop + ["sleep(5)"])) + "\n"
-    return {"src": src, "expect": sorted(expect), "decoys": len(decoys)}
+    # the project directory may be one an earlier upload of another version of the script left behind (other libraries in its platformio.ini)
+    prev = draw(st.one_of(st.none(), st.lists(st.sampled_from(["Servo", "LiquidCrystal", "LiquidCrystal_I2C", "OtherLib"]), max_size=3)))
+    return {"src": src, "expect": sorted(expect), "decoys": len(decoys), "prev_libs": prev}
 
 
 GLOBAL_OBJ = re.compile(r"^(Servo|LiquidCrystal_I2C|LiquidCrystal)\s+([A-Za-z_]\w*)\s*(?:\(|;)", re.M)
@@ -148,6 +150,8 @@ def evaluate(case, link=False):
 
     with fb.Workdir("c14p") as pd:
         try:
+            if case.get("prev_libs") is not None:
+                write_project(pathlib.Path(pd), "// earlier version\n", "COM9", lib_deps=case["prev_libs"])
             write_project(pathlib.Path(pd), cpp, "COM3", lib_deps=req)
             cp = configparser.ConfigParser(interpolation=None)
             cp.read(str(pathlib.Path(pd) / "platformio.ini"), encoding="utf-8")
